@@ -114,6 +114,13 @@ def compare(S, ev):
     eident = [(f["pid"], f["oid"], f["asset"], f["qty"]) for f in eb]
     if ident != eident:
         bad(tag("C04:batch"), "filled %s, expected %s" % (ident, eident))
+        # the same orders were filled, but (some) in another portfolio than the one they were submitted to:
+        # that portfolio's cash / holdings miss one of its own fills
+        if sorted(x[1:] for x in ident) == sorted(x[1:] for x in eident):
+            wrong = [(g, e) for g, e in zip(sorted(ident, key=lambda x: x[1]), sorted(eident, key=lambda x: x[1])) if g[0] != e[0]]
+            if wrong:
+                bad(tag("C01:fill-portfolio"), "order %s filled in portfolio %s, submitted to %s" % (wrong[0][0][1], wrong[0][0][0], wrong[0][1][0]))
+                bad(tag("C02:fill-portfolio"), "order %s filled in portfolio %s, submitted to %s" % (wrong[0][0][1], wrong[0][0][0], wrong[0][1][0]))
     else:
         for f, e in zip(fills, eb):
             if f["px"] != e["px"]:
